@@ -578,3 +578,37 @@ N.append({'id': 'cxx-type-cache-filled-through-try-emplace', 'file': 'include/op
             if (!inserted) [[unlikely]] {
                 return it->second;
             }""")]})
+
+# what follows a guard that always leaves becomes its else branch: `if (c) {...; return x;} REST`
+# -> `if (c) {...; return x;} else { REST }` (71 C++ guards, 103 Python guards; the rewritten tree
+# passes the test suite).  The first run raised alarms in F6, D1, DC1, T6 (Python), N1, W2 (C++) and an
+# analysis error in F2: rules that looked for a statement at the top level of a function body or
+# directly after a guard.  Both front ends now show such an else branch as the statements that
+# follow the guard (cxx_frontend.hoist_else_after_exit, py_frontend.hoist_else_after_exit).
+N.append({'id': 'else-after-every-exiting-guard', 'generator': 'else-after-exit', 'file': None, 'edits': []})
+
+# the mode block touches the engine only when the requested mode differs from the saved one (the
+# behaviour-preserving half of seed i13, which added a second, wrong test to the restore).  D1
+# first reported "can be left without restoring the mode".
+N.append({'id': 'py-mode-block-skips-when-already-as-requested', 'file': 'optree/registry.py', 'edits': [(
+    """    with __REGISTRY_LOCK:
+        prev = _C.is_dict_insertion_ordered(namespace, inherit_global_namespace=False)
+        _C.set_dict_insertion_ordered(bool(mode), namespace)
+
+    try:
+        yield
+    finally:
+        with __REGISTRY_LOCK:
+            _C.set_dict_insertion_ordered(prev, namespace)""",
+    """    mode = bool(mode)
+    with __REGISTRY_LOCK:
+        prev = _C.is_dict_insertion_ordered(namespace, inherit_global_namespace=False)
+        if prev != mode:
+            _C.set_dict_insertion_ordered(mode, namespace)
+
+    try:
+        yield
+    finally:
+        with __REGISTRY_LOCK:
+            if prev != mode:
+                _C.set_dict_insertion_ordered(prev, namespace)""")]})
